@@ -199,3 +199,25 @@ func thorough(pr *Prog, id string, rs *ruleSet, l *Ledger, repo, verif string, p
 		}
 	}
 }
+
+// importObligations runs another property's rules on the same program and copies the obligations selected by keep
+// into l under rule id `as` (the imported property's clauses are prerequisites of l's property; they are decided by
+// the same code as in their own check).
+func importObligations(p *Prog, l *Ledger, from, as string, keep func(o *Obligation) bool) int {
+	rs := registry[from]
+	if rs == nil {
+		l.Infra("cannot import obligations of %s", from)
+		return 0
+	}
+	sub := NewLedger(from, l.Tier)
+	rs.run(p, sub)
+	n := 0
+	for _, o := range sub.Obls {
+		if keep != nil && !keep(o) {
+			continue
+		}
+		n++
+		l.Add(as, o.Key, o.Anchor, o.Verdict, "["+from+"] "+o.Detail, o.Witness...)
+	}
+	return n
+}
